@@ -361,8 +361,9 @@ func ValidateRequestBody(ctx context.Context, input *RequestValidationInput, req
 	}
 
 	if defaultsSet {
-		var err error
-		if data, err = encodeBody(value, mediaType); err != nil {
+		// not assigned to data: on failure the GetBody installed above must keep the body that was read
+		encoded, err := encodeBody(value, mediaType)
+		if err != nil {
 			return &RequestError{
 				Input:       input,
 				RequestBody: requestBody,
@@ -374,9 +375,9 @@ func ValidateRequestBody(ctx context.Context, input *RequestValidationInput, req
 		if req.Body != nil {
 			req.Body.Close()
 		}
-		req.ContentLength = int64(len(data))
+		req.ContentLength = int64(len(encoded))
 		req.GetBody = func() (io.ReadCloser, error) {
-			return io.NopCloser(bytes.NewReader(data)), nil
+			return io.NopCloser(bytes.NewReader(encoded)), nil
 		}
 		req.Body, _ = req.GetBody() // no error return
 	}
